@@ -333,3 +333,39 @@ _add(
                'document-damaging medium, failing import seam, recording '
                'policy monitors, second-interpreter reader, replay'),
 )
+
+_add(
+    'C18', machine='flags', level='exploration',
+    tiers={'quick': {'count': 16000, 'budget_s': 40},
+           'thorough': {'count': 800000, 'budget_s': 780}},
+    rule=('one FiddleFlag object per run; a history of parse([1-3 '
+          'directives]) / read .value / "serialize and feed to a fresh flag as '
+          'config_str:" steps; directives: config:base_gen(<literal spec>), '
+          'set:PATH=repr(v) with PATH drawn from as_dict_flattened / '
+          'as_str_flattened of the model\'s current config (nested Buildables, '
+          'list indices, str and int dict keys, positional arguments; tuples '
+          'excluded), fiddler:name(lits) with fiddlers that do not commute '
+          'with set: (mutating and replacing); malformed / misplaced '
+          'directives injected; non-trivial = >= 2 directives applied; '
+          'distinct = distinct case hash'),
+    real_vs_stub=REAL + ('real absl MultiFlag machinery; stub: configured '
+                         'callables, base-config function and fiddlers in '
+                         'fsim/stubmod.py'),
+    assumptions=['the model applies set: with exec("cfg" + accessor + " = " + '
+                 'literal): Python is the independent path grammar',
+                 'after a refused directive the run ends (state unspecified)',
+                 'legacy flag API is documented as not order-preserving and '
+                 'is not driven'],
+    required_probes=['set_directives', 'set_on_nested_path',
+                     'fiddler_directives', 'config_str_roundtrips',
+                     'dict_paths_checked', 'str_paths_checked'],
+    level_text=('seeded search over directive histories on a lazily evaluated '
+                'flag object; at every read the flag value equals the '
+                'directives applied in command-line order by plain Python, '
+                'every printed path resolves to its leaf and is writable '
+                'through the override parser'),
+    design_ref='DESIGN.md 3 (C18)',
+    level_note='trusted: Python eval/exec as path resolver, canon',
+    technique=('deterministic simulation: seeded directive histories with '
+               'rejected directives, lock-step plain-Python model, replay'),
+)
